@@ -50,7 +50,7 @@ XCM_DEFS := -std=gnu99 -D_POSIX_C_SOURCE=200809L -D_BSD_SOURCE -D_DEFAULT_SOURCE
 	-Wno-deprecated-declarations -Wno-enum-conversion
 
 ifeq ($(FLAVOUR),asan)
-  SAN_XCM  := -fsanitize=address,undefined -fno-sanitize-recover=undefined -fno-omit-frame-pointer
+  SAN_XCM  := -fsanitize=address,undefined -fno-sanitize=shift-base -fno-sanitize-recover=undefined -fno-omit-frame-pointer
   SAN_H    := $(SAN_XCM)
   OPT      := -O1 -g
 else ifeq ($(FLAVOUR),tsan)
